@@ -233,11 +233,14 @@ m("pd-deletekey-skips-volatile-index", ["C08", "C20"], "PD", "deleteKey|sugardb.
 	// Remove the key from the cache associated with the database.''',
    '''	// Remove the key from the cache associated with the database.'''))
 m("m2-delete-no-subtract", ["C19"], "M2", "deleteKey|remove", "deleteKey no longer subtracts from the memory counter",
-  (K, '''	server.memUsed -= mem
-	server.memUsed -= int64(unsafe.Sizeof(key))
-	server.memUsed -= int64(len(key))
+  (K, '''		server.memUsed -= mem
+		server.memUsed -= int64(unsafe.Sizeof(key))
+		server.memUsed -= int64(len(key))
+	}
 
-	// Delete the key from keyLocks''', '''	_ = mem
+	// Delete the key from keyLocks''', '''		_ = mem
+	}
+
 	// Delete the key from keyLocks'''))
 m("m2-flush-no-release", ["C19"], "M2", "Flush|clear", "Flush no longer releases the flushed keys' memory",
   (K, '''	// Deduct the memory accounted for the flushed keys.
@@ -549,6 +552,71 @@ m("a2-guard-hoisted-before-loop", ["C08"], "A2", "adjustMemoryUsage|evict:", "un
 	}
 """, """	runtime.GC()
 """))
+
+# --- added with the second half of batch 3 ---
+m("fa-rename-deletes-first", ["C01", "C08"], "FA", "handleRename|write#1-is-first-mutation", "RENAME deletes the source before it writes the destination",
+  (GEN, """	// Set the new key with the old value
+	if err := params.SetValues(params.Context, map[string]interface{}{newKey: oldValue}); err != nil {
+		return nil, err
+	}
+""", """	if err := params.DeleteKey(params.Context, oldKey); err != nil {
+		return nil, err
+	}
+	// Set the new key with the old value
+	if err := params.SetValues(params.Context, map[string]interface{}{newKey: oldValue}); err != nil {
+		return nil, err
+	}
+"""))
+m("n5-victim-deleted-with-request-context", ["C08", "C20", "C19"], "N5", "adjustMemoryUsage|deleteKey-argument-from-database", "eviction victims are deleted with a context carrying another database",
+  (K, """		if err := server.adjustMemoryUsage(ctx); err != nil {""", """		if err := server.adjustMemoryUsage(ctx, db); err != nil {"""),
+  (K, """		ctx := context.WithValue(ctx, "Database", db)
+""", ""),
+  (K, """func (server *SugarDB) adjustMemoryUsage(ctx context.Context) error {""", """func (server *SugarDB) adjustMemoryUsage(ctx context.Context, database int) error {"""),
+  (K, """	database := ctx.Value("Database").(int)
+
+	// Check if memory usage is above max-memory.""", """	// Check if memory usage is above max-memory."""))
+m("sc-resubscribe-unanswered", ["C12", "C18"], "SC", "Subscribe|every-name-confirmed", "Channel.Subscribe reports false for a connection that is already subscribed, so no confirmation is written",
+  ('internal/modules/pubsub/channel.go', """	if _, ok := ch.subscribers[conn]; !ok {
+		ch.subscribers[conn] = resp.NewConn(*conn)
+	}
+	_, ok := ch.subscribers[conn]
+	return ok""", """	if _, ok := ch.subscribers[conn]; ok {
+		return false
+	}
+	ch.subscribers[conn] = resp.NewConn(*conn)
+	return true"""))
+m("m2-deletekey-deducts-missing", ["C19"], "M2", "deleteKey|remove-subtracts-only-existing", "deleteKey deducts the size of a key that is not in the store",
+  (K, """	if data, ok := server.store[database][key]; ok {
+		mem, err := data.GetMem()
+		if err != nil {
+			return err
+		}
+		server.memUsed -= mem
+		server.memUsed -= int64(unsafe.Sizeof(key))
+		server.memUsed -= int64(len(key))
+	}
+""", """	data := server.store[database][key]
+	mem, err := data.GetMem()
+	if err != nil {
+		return err
+	}
+	server.memUsed -= mem
+	server.memUsed -= int64(unsafe.Sizeof(key))
+	server.memUsed -= int64(len(key))
+"""))
+m("d3-record-starts-at-zero", ["C20", "C02"], "D3", "database-record-starts-unknown", "a new log store assumes the file ends in database 0",
+  ('internal/aof/log/store.go', 'currentDatabase: -1,', 'currentDatabase: 0,'))
+m("d7-marker-parsed-unsigned", ["C09", "C02", "C20"], "D7", "marker-parse-accepts-writer-values", "the SELECT marker is parsed with ParseUint although the writer can emit -1",
+  ('internal/aof/log/store.go', """			database, err = strconv.Atoi(cmd[1])
+			if err != nil {
+				return err
+			}""", """			index, err := strconv.ParseUint(cmd[1], 10, 31)
+			if err != nil {
+				return err
+			}
+			database = int(index)"""))
+m("u5-authenticated-by-password-count", ["C11"], "U5", "authenticated-iff-nopassword", "a new connection is authenticated when the default user has no stored password",
+  (ACL, 'Authenticated: defaultUser.NoPassword,', 'Authenticated: len(defaultUser.Passwords) == 0,'))
 
 out = os.path.join(os.path.dirname(os.path.dirname(os.path.abspath(__file__))), 'mutants', 'mutants.json')
 os.makedirs(os.path.dirname(out), exist_ok=True)
